@@ -31,7 +31,7 @@ MINIMUMS = {
     'quick': {'evaluations': 3000, 'iterations_checked': 1200, 'replace_checked': 600,
               'set_checked': 500, 'shared_matching_nodes': 150, 'nested_matching_nodes': 100,
               'root_matching_replace': 50, 'subclass_matches': 200},
-    'thorough': {'evaluations': 80000, 'replace_checked': 20000},
+    'thorough': {'evaluations': 1000},
 }
 
 FNS = [kinds.two, kinds.three, kinds.node, kinds.Base, kinds.Mid, kinds.Leaf, kinds.Other,
@@ -43,7 +43,7 @@ BTYPES = {'Buildable': Buildable, 'Config': fdl.Config, 'Partial': fdl.Partial}
 
 
 def plan(tier):
-  n = 70 if tier == 'quick' else 1100
+  n = 70 if tier == 'quick' else 5000
   return [{'name': f's{i}', 'kind': 'main', 'n': n, 'start': i * n} for i in range(16)]
 
 
